@@ -11,8 +11,8 @@ slice, or a `Vec` when `growable`).  Time is `Int` µs.  Explicit panic sites:
   global-control test
 * `unreachable!()` for `OperatingState::Stop` in the global-control PDU closure (not reachable: the
   function returns before in Stop — kept as a `.panic` arm)
-* the two `unreachable!`s of `receive_reply` (cycle completed / no peripheral or another address at
-  the cycle index)
+* the `unreachable!` of `receive_reply` for a completed cycle (the other one — no peripheral or another
+  address at the cycle index — became "ignore the stale reply" with /repo 954a153, F14)
 * everything `Peripheral.transmit` / `Peripheral.receiveReply` can panic with.
 
 The `loop` of `transmit_telegram` is a recursion on fuel with an explicit `.hang` outcome (fuel
@@ -132,6 +132,12 @@ def Master.requestDiagnostics (m : Master) (i : Nat) : Option Master :=
   | some p => some { m with slots := m.slots.set i (some { p with diagNeeded := true }) }
   | none => none
 
+/-- `get_mut(handle).reset_address(new_address)`. -/
+def Master.resetAddress (m : Master) (i : Nat) (a : UInt8) : Option Master :=
+  match m.peripheral? i with
+  | some p => some { m with slots := m.slots.set i (some (p.resetAddress a)) }
+  | none => none
+
 /-! ## `FdlApplication for DpMaster` -/
 
 /-- Result of `transmit_telegram`. -/
@@ -248,9 +254,12 @@ def Master.receiveReply (m : Master) (addr : UInt8) (t : Telegram) : Res Master 
   | .dx index =>
     match getAtIndex m.slots index with
     | .panic => .panic
-    | .ok none => .panic
+    -- since /repo 954a153 (F14) a reply that does not belong to the peripheral at the cycle index —
+    -- its address was changed by `reset_address()` while the request was in flight — is ignored:
+    -- neither the cycle state nor the events are touched
+    | .ok none => .ok m
     | .ok (some (i, p)) =>
-      if addr ≠ p.address then .panic else
+      if addr ≠ p.address then .ok m else
       match p.receiveReply t with
       | .panic => .panic
       | .ok p' ev =>
